@@ -38,6 +38,11 @@ func (rm *room) allowed(ev gmsl.PDU, prov *gmsl.AuthEvents, list []gmsl.PDU) err
 	}
 	if rm.r.Focus("C09") || rm.t.Chance(100) {
 		rm.checkStateless(ev, list, err)
+	} else if rm.r.Focus("C08") && ev.Type() == spec.MRoomPowerLevels && ev.StateKey() != nil && *ev.StateKey() == "" {
+		// every power-levels event also goes through the room's long-lived,
+		// reused checker: what that checker accepts is judged by the same
+		// non-escalation monitor
+		rm.viaReused(ev, list, verdict(err), "power-levels event "+rm.short(ev.EventID()))
 	}
 	return err
 }
